@@ -201,7 +201,7 @@ PROBES = [
     # early exits whose lowering depends on what encloses them two levels up: in the condition of a while loop nested in
     # another structure, and after a modifier (with its operand) inside a loop body inside a lambda
     ("for-while-cond-break", "(7001{7002X|7003})"), ("while-while-cond-break", "{7001|{7002X|7003}}"), ("lambda-while-cond-break", "λ{7005X|7002};"), ("for-while-cond-continue", "(7001{7002x|7003})"),
-    ("for-mod-break", "(v7001 X7002)"), ("lambda-for-mod-break", "λ(⁽7001 7002X)7003;"), ("lambda-while-mod-break", "λ{7005|v7002 X};"), ("lambda-for-mod2-break", "λ(₌7001 7002 X)7003;"), ("lambda-mod-break", "λv7001 X7002;"),
+    ("for-mod-break", "(v7001 X7002)"), ("lambda-for-mod-break", "λ(⁽7001 7002X)7003;"), ("lambda-while-mod-break", "λ{7005|v7002 X};"), ("lambda-for-mod2-break", "λ(₌7001 7002 X)7003;"), ("lambda-mod-break", "λv7001 X7002;"), ("map-for-break", "ƛ(7002X)7003;"), ("map-while-continue", "ƛ{7005|7002x}7003;"),
 ]
 LOOP_INV = dict(inv=DEPTHS + BELOW + ["len(ctx.inputs) >= 1"])
 
@@ -217,7 +217,7 @@ def _loop_inv(dcv, dins=0, dst=0, dfs=0):
 NESTED_LOOPS = {
     "for-while-cond-break": {"top": {1: _loop_inv(1)}}, "for-while-cond-continue": {"top": {1: _loop_inv(1)}}, "while-while-cond-break": {"top": {1: _loop_inv(1)}},
     "lambda-while-cond-break": {"lambda": {0: _loop_inv(1, 1, 1, 1)}}, "lambda-for-mod-break": {"lambda": {0: _loop_inv(1, 1, 1, 1)}},
-    "lambda-while-mod-break": {"lambda": {0: _loop_inv(1, 1, 1, 1)}}, "lambda-for-mod2-break": {"lambda": {0: _loop_inv(1, 1, 1, 1)}},
+    "lambda-while-mod-break": {"lambda": {0: _loop_inv(1, 1, 1, 1)}}, "map-for-break": {"lambda": {0: _loop_inv(1, 1, 1, 1)}}, "map-while-continue": {"lambda": {0: _loop_inv(1, 1, 1, 1)}}, "lambda-for-mod2-break": {"lambda": {0: _loop_inv(1, 1, 1, 1)}},
 }
 
 
